@@ -1,5 +1,6 @@
 import Syzgy.Model.Driver
 import Syzgy.Model.QueryDriver
+import Syzgy.Model.SearchDriver
 
 open Syzgy
 
@@ -10,7 +11,10 @@ def step (d : DState) (line : String) : DState × String :=
   | none =>
     match Syzgy.Query.queryStep toks with
     | some out => (d, out)
-    | none => (d, "bad-op")
+    | none =>
+      match searchStep toks with
+      | some out => (d, out)
+      | none => (d, "bad-op")
 
 partial def loop (hin hout : IO.FS.Stream) (d : DState) : IO Unit := do
   let line ← hin.getLine
